@@ -35,7 +35,8 @@ def cmdBuild (j : Json) : Except String Json := do
     match r0 with
     | .ok =>
       let (_, rs) := Builder.run s0 rest
-      return Json.mkObj [("rets", toJson (r0 :: rs))]
+      -- `ref`: what the bottom-up reference (Model/BuilderRef) builds for the same history, at every first Plan()
+      return Json.mkObj [("rets", toJson (r0 :: rs)), ("ref", toJson (Builder.track none false cs))]
     | _ => return Json.mkObj [("rets", toJson [r0])]
 
 def cmdValidate (j : Json) : Except String Json := do
